@@ -199,12 +199,15 @@ def run(ctx, anchors=None):
     c03_setup.check_p2sh_once(ctx, fb, prog)
     # ---- R03.6 agreement with the batch twin, on the accepting paths of both
     c03_setup.check_agreement(ctx, fb, prog)
+    c03_setup.check_initial_stack(ctx, fb, prog)
     amt = [n for n in cf.nodes() if n["k"] == "assign" and "amounts[txin_index]" in _X(cf, n["lhs"])]
     ctx.inst(bool(amt) and "vout[txin_vout_index]" in _cm.xstr(cf, amt[0]["rhs"], KEEP).replace(" ", "") and _cm.xstr(cf, amt[0]["rhs"], KEEP).endswith(".nValue"), "R03.6", "amount-from-spent-output", cf.loc(amt[0]) if amt else cf.loc(),
              "the amount of the debugged input is taken from the referenced output")
 
 
 MUTANTS = [
+    dict(name="annex-pushed-as-argument", file="instance.cpp", find="                wstack_to_stack = stack.size(); // the annex, if any, is not an argument\n", replace="", expect=["R03.6:initial-stack-excludes-annex-control-script"]),
+    dict(name="witness-items-through-the-text-parser", file="instance.cpp", find="            stack.push_back(wstack[i]);\n", replace="            stack.push_back(Value(HexStr(wstack[i]).c_str()).data_value());\n", expect=["R03.6:witness-items-verbatim"]),
     dict(name="p2sh-mark-survives-the-redeem-script", file="debugger/interpreter.cpp", find="            // Restore stack.\n            is_p2sh = false;\n", replace="            // Restore stack.\n", expect=["R03.5:p2sh-continuation-once"]),
     dict(name="commitment-skipped-for-empty-script", file="instance.cpp", find="    env->done &= successor_script.size() == 0 && !tce;\n", replace="    env->done &= successor_script.size() == 0;\n", expect=["R03.3:pending-commitment-not-done"]),
     dict(name="tce-over-wrong-script", file="instance.cpp", find="tce = new TaprootCommitmentEnv(control, program, scriptPubKey, &execdata.m_tapleaf_hash);", replace="tce = new TaprootCommitmentEnv(control, program, CScript(wstack.front().begin(), wstack.front().end()), &execdata.m_tapleaf_hash);", expect=["R03.3:v1-script-path-commitment"]),
